@@ -138,3 +138,216 @@ def roll_push_loops(body):
             blocks[b]["dead"] = True
         n += 1
     return n
+
+
+# ------------------------------------------------------------------------------------------------------------------
+def _places(x):
+    """all place dicts inside a statement / terminator fragment"""
+    if isinstance(x, dict):
+        if "l" in x and "proj" in x:
+            yield x
+            for p_ in x["proj"]:
+                for y in _places(p_):
+                    yield y
+            return
+        for v in x.values():
+            for y in _places(v):
+                yield y
+    elif isinstance(x, list):
+        for v in x:
+            for y in _places(v):
+                yield y
+
+
+def roll_map_push_loops(body, key, root):
+    """`for x in it { acc.push(f(x)) }`  ==  `acc.extend(it.map(|x| f(x)))`     (inlined view only)
+
+    f is a straight chain of calls on the item and on values computed from it, reading nothing else of the enclosing
+    function; it becomes a synthetic closure body, so that the rules see the loop exactly as they see the adaptor
+    spelling.  Rewrites body.blocks in place; returns [(closure key, closure body json)]."""
+    blocks = body.blocks
+    out = []
+    for h, blk in sorted(body.loops().items()):
+        th = blocks[h]["term"]
+        if th["t"] != "call" or th["callee"].get("item") != "next" or len(th["args"]) != 1 or th["dest"]["proj"]:
+            continue
+        nloc = th["dest"]["l"]
+        if th.get("target") not in blk:
+            continue
+        a0 = th["args"][0]
+        if a0["o"] not in ("copy", "move") or a0["place"]["proj"]:
+            continue
+        refs = {}
+        for st in blocks[h]["stmts"]:
+            if st.get("s") == "assign" and not st["place"]["proj"] and st["rv"]["r"] == "ref" and st["rv"]["bk"] == "mut":
+                refs[st["place"]["l"]] = st["rv"]["place"]
+        cur_l = a0["place"]["l"]
+        iter_local = None
+        for _ in range(3):
+            pl = refs.get(cur_l)
+            if pl is None:
+                break
+            if not pl["proj"]:
+                iter_local = pl["l"]
+                break
+            if [p_.get("p") for p_ in pl["proj"]] == ["deref"]:
+                cur_l = pl["l"]
+            else:
+                break
+        if iter_local is None:
+            continue
+        test = th["target"]
+        tt = blocks[test]["term"]
+        if tt["t"] != "switch":
+            continue
+        arms = dict((v, tg) for (v, tg) in tt["arms"])
+        if 0 not in arms or 1 not in arms or arms[0] in blk or arms[1] not in blk:
+            continue
+        exit_bb, bb = arms[0], arms[1]
+        # walk the body
+        seq = []      # ("st", stmt) / ("call", term)
+        seen = set()
+        cur = bb
+        ok = True
+        while cur != h:
+            if cur in seen or cur not in blk:
+                ok = False
+                break
+            seen.add(cur)
+            for st in blocks[cur]["stmts"]:
+                if st.get("s") == "assign" and st["rv"]["r"] == "use" and st["rv"]["op"]["o"] == "const" and not st["place"]["proj"] and body.locals[st["place"]["l"]]["ty"] == "()":
+                    continue   # unit values of statement expressions
+                if st.get("s") == "assign":
+                    seq.append(("st", st))
+                elif st.get("s") != "other":
+                    ok = False
+            t = blocks[cur]["term"]
+            if t["t"] == "call":
+                if t.get("target") is None or t["dest"]["proj"] or "path" not in t["callee"]:
+                    ok = False
+                    break
+                seq.append(("call", t))
+                cur = t["target"]
+            elif t["t"] in ("goto", "drop"):
+                cur = t["target"]
+            else:
+                ok = False
+                break
+        if not ok or set(blk) - ({h, test} | seen):
+            continue
+        calls = [x for x in seq if x[0] == "call"]
+        if len(calls) < 2:
+            continue   # the plain push loop is roll_push_loops' business
+        push = calls[-1][1]
+        if _callee(push) not in PUSHES or len(push["args"]) != 2 or seq[-1][0] != "call":
+            continue
+        pa0, pa1 = push["args"]
+        if not (pa0["o"] == "move" and not pa0["place"]["proj"] and pa1["o"] in ("move", "copy") and not pa1["place"]["proj"]):
+            continue
+        acc_ref = [x[1] for x in seq if x[0] == "st" and x[1]["place"]["l"] == pa0["place"]["l"] and not x[1]["place"]["proj"]]
+        if len(acc_ref) != 1 or acc_ref[0]["rv"]["r"] != "ref" or acc_ref[0]["rv"]["bk"] != "mut":
+            continue
+        acc_ref = acc_ref[0]
+        chain = [x for x in seq[:-1] if not (x[0] == "st" and x[1] is acc_ref)]
+        # locals of the chain: everything it assigns; it may read only those, the item, and constants
+        defined = set()
+        for kind, x in chain:
+            pl = x["place"] if kind == "st" else x["dest"]
+            if pl["proj"]:
+                ok = False
+            defined.add(pl["l"])
+        if not ok or acc_ref["rv"]["place"]["l"] in defined or pa1["place"]["l"] not in defined:
+            continue
+
+        def item_place(pl):
+            return pl["l"] == nloc and [p_.get("p") for p_ in pl["proj"][:2]] == ["downcast", "field"]
+        for kind, x in chain:
+            frag = [x["rv"]] if kind == "st" else [x["args"]]
+            for pl in _places(frag):
+                if pl["l"] in defined or item_place(pl):
+                    continue
+                ok = False
+        # nothing the chain computes is used after the loop or in the header
+        for b2, bl2 in enumerate(blocks):
+            if b2 in seen or bl2["cleanup"]:
+                continue
+            for pl in _places([bl2["stmts"], bl2["term"]]):
+                if pl["l"] in defined:
+                    ok = False
+        if not ok:
+            continue
+        # ---- the closure body
+        lmap = {}
+        clocals = [dict(body.locals[pa1["place"]["l"]]), {"ty": "&mut {rolled loop body}", "mut": True}, None]
+        item_ty = None
+
+        def remap(frag):
+            nonlocal item_ty
+            frag = copy.deepcopy(frag)
+            for pl in _places(frag):
+                if item_place(pl):
+                    if item_ty is None:
+                        item_ty = pl["proj"][1].get("ty")
+                    pl["l"] = 2
+                    pl["proj"] = pl["proj"][2:]
+                elif pl["l"] in defined:
+                    if pl["l"] not in lmap:
+                        lmap[pl["l"]] = len(clocals)
+                        clocals.append(dict(body.locals[pl["l"]]))
+                    pl["l"] = lmap[pl["l"]]
+                pl["s"] = "_%d" % pl["l"]
+            return frag
+        cblocks = [{"cleanup": False, "stmts": [], "term": None, "span": blocks[bb].get("span"), "file": blocks[bb].get("file")}]
+        for kind, x in chain:
+            if kind == "st":
+                cblocks[-1]["stmts"].append(remap(x))
+            else:
+                t2 = remap(x)
+                t2["target"] = len(cblocks)
+                t2["unwind"] = "continue"
+                cblocks[-1]["term"] = t2
+                cblocks.append({"cleanup": False, "stmts": [], "term": None, "span": blocks[bb].get("span"), "file": blocks[bb].get("file")})
+        res = remap({"o": "move", "place": copy.deepcopy(pa1["place"])})
+        cblocks[-1]["stmts"].append({"s": "assign", "place": {"l": 0, "proj": [], "s": "_0"}, "rv": {"r": "use", "op": res}, "line": None})
+        cblocks[-1]["term"] = {"t": "return"}
+        clocals[2] = {"ty": item_ty or "?", "mut": False}
+        ckey = "%s::{rolled#%d}" % (key, h)
+        cj = {"kind": "closure", "def_kind": "Closure", "arg_count": 2, "locals": clocals, "debug": [], "blocks": cblocks, "span": blocks[bb].get("span"), "parent": key, "parent_kind": "Fn", "root": root, "synthetic": True}
+        # ---- the caller:  c = closure; m = Iterator::map(move it, move c); extend(&mut acc, move m) -> exit
+        nl = len(body.locals)
+        body.locals.append({"ty": "{rolled loop body}", "mut": False})
+        body.locals.append({"ty": "std::iter::Map<_, {rolled loop body}>", "mut": False})
+        mapblock = len(blocks)
+        line = acc_ref.get("line")
+        newh = blocks[h]
+        newh["stmts"] = [{"s": "assign", "place": {"l": nl, "proj": [], "s": "_%d" % nl}, "rv": {"r": "aggregate", "ak": "closure", "path": ckey, "ops": []}, "line": line}]
+        newh["term"] = {
+            "t": "call",
+            "callee": {"path": "std::iter::Iterator::map", "full": "std::iter::Iterator::map", "args": [], "local": False, "resolved": None, "trait": "std::iter::Iterator", "item": "map", "rolled": True},
+            "args": [{"o": "move", "place": {"l": iter_local, "proj": [], "s": "_%d" % iter_local}}, {"o": "move", "place": {"l": nl, "proj": [], "s": "_%d" % nl}}],
+            "dest": {"l": nl + 1, "proj": [], "s": "_%d" % (nl + 1)},
+            "target": mapblock,
+            "unwind": "continue",
+        }
+        blocks.append({
+            "cleanup": False,
+            "stmts": [copy.deepcopy(acc_ref)],
+            "term": {
+                "t": "call",
+                "callee": {"path": "std::iter::Extend::extend", "full": "std::iter::Extend::extend", "args": [], "local": False, "resolved": None, "trait": "std::iter::Extend", "item": "extend", "rolled_from": _callee(push)},
+                "args": [{"o": "move", "place": copy.deepcopy(acc_ref["place"])}, {"o": "move", "place": {"l": nl + 1, "proj": [], "s": "_%d" % (nl + 1)}}],
+                "dest": copy.deepcopy(push["dest"]),
+                "target": exit_bb,
+                "unwind": "continue",
+                "rolled": True,
+            },
+            "span": blocks[h].get("span"),
+            "file": blocks[h].get("file"),
+        })
+        for b2 in ({test} | seen):
+            blocks[b2]["stmts"] = []
+            blocks[b2]["term"] = {"t": "unreachable"}
+            blocks[b2]["dead"] = True
+        out.append((ckey, cj))
+        body._reset()
+    return out
